@@ -377,7 +377,7 @@ def _generate_config_content(preset: str) -> str:
     presets = {
         "strict": {
             "allowed_numbers": "[-1, 0, 1]",
-            "max_small_integer": "3",
+            "max_small_integer": "2",
             "description": "Strict (only universal values)",
         },
         "standard": {
@@ -386,7 +386,7 @@ def _generate_config_content(preset: str) -> str:
             "description": "Standard (balanced defaults)",
         },
         "lenient": {
-            "allowed_numbers": "[-1, 0, 1, 2, 3, 4, 5, 10, 60, 100, 1000, 3600]",
+            "allowed_numbers": "[-1, 0, 1, 2, 3, 4, 5, 10, 60, 100, 1000, 1024, 3600]",
             "max_small_integer": "10",
             "description": "Lenient (includes time conversions)",
         },
